@@ -1,6 +1,6 @@
 SPECIFICATION SimSpec
 CONSTANTS
-  Parties = {"p1", "p2", "p3", "p4", "p5"}
+  Parties = {"p1", "p2", "p3", "p4"}
   Creator = "p1"
   MaxCommits = 40
   MaxProps = 40
@@ -10,17 +10,17 @@ CONSTANTS
   EncChoices = {FALSE, TRUE}
   ByValueMax = 2
   AllowConflicts = FALSE
-  Features = {}
-  Window = 2
-  Retention = 2
+  Features = {"apps", "storage"}
+  Window = 1024
+  Retention = 1
   BurstSizes = {1, 2}
-  MaxApps = 0
+  MaxApps = 30
   Depth = 60
-  WProgress = 60
-  WPropose = 30
-  WCommit = 35
-  WApp = 15
-  WStore = 10
+  WProgress = 55
+  WPropose = 10
+  WCommit = 30
+  WApp = 35
+  WStore = 20
 INVARIANT EmitAtDepth
 INVARIANT Agreement
 INVARIANT EpochIsChainLength
